@@ -25,7 +25,8 @@ Oracle
     node), handed to networkx.betweenness_centrality / closeness_centrality (default parameters; trusted);
     temporal: snapshots = the timed hyperedges reported by get_edges() grouped by time, expected = sum / #snapshots.
   * sub-hypergraph centrality: A[i][j] = number of hyperedges containing both nodes (zero diagonal) in the node order
-    of the public adjacency_matrix(return_mapping=True) mapping; expected = log(diag(scipy.linalg.expm(A))), 1e-8.
+    of the public adjacency_matrix(return_mapping=True) mapping; expected = c + log(diag(scipy.linalg.expm(A - cI))), c = largest eigenvalue (no overflow), 1e-8;
+    plus two dense complete uniform hypergraphs (spectral radius 168 and 840).
   * CEC: W[i][j] = number of hyperedges containing both; lambda_max from numpy.linalg.eigvalsh; residual
     max|Wc - lambda_max c| / max|Wc| <= 1e-4.  HEC: lhs_i = sum over hyperedges at i of the product of the other
     members' scores, rhs_i = c_i^(k-1), mu = least-squares multiple, residual max|lhs - mu rhs| / max|lhs| <= 1e-4.
@@ -311,7 +312,9 @@ def _static_contracts(sink, spec, only=None):
                         for j, v in enumerate(order):
                             if i != j:
                                 A[i, j] = sum(1 for e in E if u in e and v in e)
-                    exp = np.log(np.diag(R.sla.expm(A)))
+                    # log diag expm(A) = c + log diag expm(A - cI): the shifted form cannot overflow for a large spectral radius
+                    c = float(np.linalg.eigvalsh(A).max()) if len(N) else 0.0
+                    exp = c + np.log(np.diag(R.sla.expm(A - c * np.eye(len(N)))))
                     bad = [(_j(order[i]), vec[i], float(exp[i])) for i in range(len(N)) if not _close(vec[i], exp[i], 1e-8)]
                     sink.check(not bad, fn, "value = log of the node's diagonal entry of expm(adjacency matrix)", inp,
                                expected="equal up to 1e-8", observed=_j(bad[:3]), replay=rp)
@@ -329,7 +332,8 @@ def _relabelled_static(spec):
 
 
 def _run_static(sink, spec, only=None):
-    if only is None:
+    only = only if only is not None else spec.get("only")
+    if only is None or spec.get("only"):
         sink.case(spec, nontrivial=len(spec["edges"]) >= 2)
     r1 = _static_contracts(sink, spec, only)
     if r1 is None:
@@ -785,7 +789,13 @@ def run(ctx):
                "vector; numpy global RNG seeded per call from ctx.seed")
     ctx.assume("a result counts as normalised if its 1-norm or its 2-norm is 1 up to 1e-9 (the statement names no norm)")
 
-    tasks = []
+    # dense inputs for the sub-hypergraph centrality: adjacency spectral radius 168 (complete 4-uniform on 9 nodes) and 840 (complete
+    # 5-uniform on 11 nodes: exp(840) is not a float, the diagonal of expm(A) must still have a finite logarithm)
+    dense = [dict(kind="H", nodes=list(range(n)), edges=[list(e) for e in itertools.combinations(range(n), k)],
+                  relabel=[[v, v] for v in range(n)], only="subhypergraph_centrality") for n, k in ((9, 4), (11, 5))]
+    ctx.rule("two dense inputs for subhypergraph_centrality only: the complete 4-uniform hypergraph on 9 nodes and the complete 5-uniform "
+             "one on 11 nodes (462 hyperedges, adjacency spectral radius 840)")
+    tasks = [dense]
     tasks += list(_chunks(_gen_static_exhaustive(s_plan, seed), 150))
     tasks += list(_chunks(_gen_static_random(n_srand, seed), 100))
     tasks += list(_chunks(_gen_temporal_exhaustive(t_n, 3, seed), 150))
